@@ -200,6 +200,22 @@ func ruleIOErr(p *Prog, r *RuleResult) {
 						}
 					}
 				}
+				if !local && len(c.Args) > 0 {
+					// created by a same-package helper that builds it over a BufferStream
+					var src ssa.Value = c.Args[0]
+					if ex, ok := src.(*ssa.Extract); ok {
+						src = ex.Tuple
+					}
+					if hc, ok := src.(*ssa.Call); ok {
+						if h := hc.Call.StaticCallee(); h != nil && h.Blocks != nil && FnPkg(h) == FnPkg(f) {
+							eachInstr(h, func(j ssa.Instruction) {
+								if cc := callOf(j); cc != nil && cc.StaticCallee() != nil && cc.StaticCallee().Name() == "NewBufferStream" {
+									local = true
+								}
+							})
+						}
+					}
+				}
 				if local {
 					r.exempt(key, p.IPos(i), "task-local bitstream over an in-memory BufferStream: Close cannot fail before it is closed (its flush target is a bytes buffer)")
 					return
